@@ -31,7 +31,8 @@ RULE = ("Part 'result': one Result type (SUM int / dyadic / general float, "
         "of three as (a+b)+c / a+(b+c), with 1..2 unpacked parameters (ints, "
         "floats, nearly equal floats, ints in one set and floats in the "
         "other, strings of different lengths) whose values overlap in "
-        "none/some/all; "
+        "none/some/all, value accumulation optionally differing between the "
+        "sets; "
         "non-trivial = partial overlap.  distinct = SHA-1 of the case.")
 LEVEL_TEXT = ("Generated-history search (Hypothesis, seeded, sharded) over "
               "update sequences, partitions, merge association orders, result "
